@@ -13,6 +13,8 @@
 
     Name clashes: [Ok]/[NoFuel]/[bind]/[heap] are GoLite's here; the model's are
     written [IMapBase.Ok], [IMapBase.Panic], [IMapBase.NoFuel], [IMap.heap]. *)
+(* model/IMap.v and lib/GoLite.v both define the monadic notation; GoLite's wins here *)
+Set Warnings "-notation-overridden,-parsing".
 From Coq Require Import List ZArith Arith Bool Lia.
 From GL Require Import lib.IMapBase model.IMap.
 From GL Require Import lib.GoLite lib.GoLitePtr.
@@ -249,33 +251,313 @@ Qed.
 
 (** * Model-side frame lemmas: what [n_delete] / [n_putval] preserve *)
 
+(* a field update that keeps ids in range and does not touch the counter *)
+Definition okf (len : nat) (f : node -> node) : Prop :=
+  (forall n, nclosed len n -> nclosed len (f n)) /\ (forall n, n_ref (f n) = n_ref n).
+
+Lemma okf_val len v : okf len (set_val v).
+Proof. split; intros n; [intros H; exact H|reflexivity]. Qed.
+Lemma okf_key len v : okf len (set_key v).
+Proof. split; intros n; [intros H; exact H|reflexivity]. Qed.
+Lemma okf_st len v : okf len (set_st v).
+Proof. split; intros n; [intros H; exact H|reflexivity]. Qed.
+Lemma okf_prev len o : inb len o -> okf len (set_prev o).
+Proof. intros Ho. split; intros n; [intros [_ H]; split; [exact Ho|exact H]|reflexivity]. Qed.
+Lemma okf_next len o : inb len o -> okf len (set_next o).
+Proof. intros Ho. split; intros n; [intros [H _]; split; [exact H|exact Ho]|reflexivity]. Qed.
+Lemma okf_comp len f g : okf len f -> okf len g -> okf len (fun n => g (f n)).
+Proof. intros [F1 F2] [G1 G2]. split; intros n; [intros H; apply G1, F1, H|rewrite G2; apply F2]. Qed.
+
+Definition good (mh mh' : mheap) : Prop := closed mh' /\ same_refs mh mh'.
+
+Lemma good_refl mh : closed mh -> good mh mh.
+Proof. intros C. split; [exact C|apply same_refs_refl]. Qed.
+
+Lemma good_upd mh mh' x f : good mh mh' -> okf (length mh) f -> good mh (upd mh' x f).
+Proof.
+  intros [C [L R]] [F1 F2]. split.
+  - apply closed_upd; [exact C|]. intros Hx. rewrite L. apply F1. rewrite <- L. apply C. exact Hx.
+  - eapply same_refs_trans; [split; [exact L|exact R]|]. apply same_refs_upd. exact F2.
+Qed.
+
+Lemma good_trans a b c : good a b -> good b c -> good a c.
+Proof. intros [C1 S1] [C2 S2]. split; [exact C2|eapply same_refs_trans; eassumption]. Qed.
+
+Lemma good_len mh mh' : good mh mh' -> length mh' = length mh.
+Proof. intros [_ [L _]]. exact L. Qed.
+
+Lemma okf_prev_next len o1 o2 : inb len o1 -> inb len o2 -> okf len (fun n => set_prev o1 (set_next o2 n)).
+Proof. intros H1 H2. apply (okf_comp len (set_next o2) (set_prev o1)); [apply okf_next|apply okf_prev]; assumption. Qed.
+Lemma inb_none len : inb len None. Proof. exact I. Qed.
+Lemma inb_some len y : (y < len)%nat -> inb len (Some y). Proof. intros H. exact H. Qed.
+
+Global Hint Resolve okf_val okf_key okf_st okf_prev okf_next okf_prev_next inb_none inb_some : okf.
+
+Ltac good_tac C :=
+  repeat (apply good_upd; [|solve [auto 6 with okf]]); apply good_refl; exact C.
+
 Lemma n_delete_pres mh x mh' o : closed mh -> (x < length mh)%nat ->
-  n_delete mh x = IMapBase.Ok (mh', o) ->
-  same_refs mh mh' /\ closed mh' /\ inb (length mh) o.
+  n_delete mh x = IMapBase.Ok (mh', o) -> good mh mh' /\ inb (length mh) o.
 Proof.
   intros C Hx. unfold n_delete. rewrite get_ok by exact Hx. cbn [IMapBase.bind].
   pose proof (C x Hx) as [Cp Cn]. set (n := nd mh x) in *.
-  assert (Sv : same_refs mh (upd mh x (set_val 0))) by (apply same_refs_upd; reflexivity).
-  assert (Cv : closed (upd mh x (set_val 0))).
-  { apply closed_upd; [exact C|]. intros _. fold n. split; assumption. }
-  destruct (n_st n); [intros [= <- <-]; split; [apply same_refs_refl|]; split; [exact C|exact I]| |].
-  all: destruct (n_ref n =? 0).
-  all: try (intros [= <- <-]; split; [|split; [|exact I]];
-            [eapply same_refs_trans; [exact Sv|apply same_refs_upd; reflexivity]
-            |apply closed_upd; [exact Cv|]; intros _; rewrite nd_upd_same by exact Hx; fold n; split; assumption]).
+  destruct (n_st n); [intros [= <- <-]; split; [apply good_refl; exact C|exact I]| |].
+  all: destruct (n_ref n =? 0); [|intros [= <- <-]; split; [good_tac C|exact I]].
   all: destruct (n_prev n) as [p|] eqn:Ep; destruct (n_next n) as [q|] eqn:Eq; cbn [inb deref IMapBase.bind] in *;
     rewrite ?wr_ok by (rewrite ?length_upd; assumption); cbn [IMapBase.bind];
     rewrite ?wr_ok by (rewrite ?length_upd; assumption); cbn [IMapBase.bind];
     try discriminate; intros [= <- <-].
-  all: (split; [|split; [|cbn [inb]; try assumption; try exact I]]).
-  all: try (repeat (eapply same_refs_trans; [|apply same_refs_upd; reflexivity]); exact Sv).
-  all: repeat (apply closed_upd; [|intros _]); try exact Cv; rewrite ?length_upd.
-  all: repeat match goal with
-       | |- context [nd (upd ?h ?z ?f) ?y] =>
-           destruct (Nat.eq_dec y z) as [->|?];
-           [rewrite (nd_upd_same h z f) by (rewrite ?length_upd; assumption)
-           |rewrite (nd_upd_other h z f y) by assumption]
-       end.
-  all: try (split; cbn [n_prev n_next set_prev set_next set_val set_st inb]; try exact I; try assumption;
-            try (apply C; assumption); try (fold n; rewrite ?Ep, ?Eq; cbn [inb]; assumption)).
+  all: (split; [good_tac C|cbn [inb]; try assumption; try exact I]).
 Qed.
+
+Lemma n_putval_pres mh x k v new mh' r : closed mh -> (x < length mh)%nat -> (new < length mh)%nat ->
+  n_putval mh x k v new = IMapBase.Ok (mh', r) ->
+  good mh mh' /\ r = new /\ n_prev (nd mh' new) = Some x.
+Proof.
+  intros C Hx Hn. unfold n_putval. rewrite get_ok by exact Hx. cbn [IMapBase.bind].
+  destruct (n_st (nd mh x)); try discriminate.
+  rewrite wr_ok by exact Hn. cbn [IMapBase.bind].
+  rewrite get_ok by (rewrite !length_upd; exact Hx). cbn [IMapBase.bind].
+  rewrite !nd_upd_same by (rewrite ?length_upd; exact Hx). cbn [n_next set_val set_key set_st set_next deref IMapBase.bind].
+  intros [= <- <-]. split; [good_tac C|]. split; [reflexivity|].
+  destruct (Nat.eq_dec new x) as [->|Hne].
+  - rewrite !nd_upd_same by (rewrite ?length_upd; exact Hx). reflexivity.
+  - rewrite !(nd_upd_other _ x) by exact Hne. rewrite !nd_upd_same by (rewrite ?length_upd; exact Hn). reflexivity.
+Qed.
+
+(** * Symbolic execution of generated code over [gheap]
+
+    [im_step]: one primitive of the generated code (a field load / store through
+    [ptr x], a nil dereference, an allocation); [m_step]: one dereference of the
+    model.  [im_run] alternates them with beta/iota/zeta, normalises reads of
+    updated heaps ([nd (upd ..)], with a case split when two ids may coincide)
+    and splits on the conditions both sides share.  Nothing refers to names of
+    the generated file. *)
+
+Ltac len_side := rewrite ?length_upd, ?app_length; cbn [length]; first [assumption | lia].
+
+Ltac st_fun k v :=
+  lazymatch k with
+  | 0%nat => lazymatch v with
+             | 0 => constr:(set_st StLast) | 1 => constr:(set_st StOk) | 2 => constr:(set_st StDeleted)
+             | st_code ?s => constr:(set_st s)
+             end
+  | 1%nat => lazymatch v with
+             | 0 => constr:(set_prev None) | ptr ?y => constr:(set_prev (Some y)) | optr ?o => constr:(set_prev o)
+             end
+  | 2%nat => lazymatch v with
+             | 0 => constr:(set_next None) | ptr ?y => constr:(set_next (Some y)) | optr ?o => constr:(set_next o)
+             end
+  | 3%nat => constr:(set_ref v)
+  | 4%nat => constr:(set_key v)
+  | 5%nat => constr:(set_val v)
+  end.
+
+Ltac im_step :=
+  match goal with
+  | |- context [bind (bind ?m ?k) ?k' ?h] => rewrite (bind_assoc m k k' h)
+  | |- context [bind (ret ?a) ?k ?h] => rewrite (bind_ret_l a k h)
+  | |- context [bind (fld_load (ptr ?x) ?k) ?kk (gheap ?pl ?H)] =>
+      rewrite (bind_ld x k kk pl H) by len_side; cbn [nth enc]
+  | |- context [bind (fld_load 0 ?k) ?kk ?h] => rewrite (bind_fld_load_nil k kk h 0) by lia
+  | |- context [bind (fld_store 0 ?k ?v) ?kk ?h] => rewrite (bind_fld_store_nil 0 k v kk h) by lia
+  | |- context [bind (fld_store (ptr ?x) ?k ?v) ?kk (gheap ?pl ?H)] =>
+      let f := st_fun k v in rewrite (bind_st x k v kk pl H f) by first [len_side | reflexivity]
+  | |- context [bind (obj_new 6) ?kk (gheap ?pl ?H)] => rewrite (bind_new kk pl H)
+  end.
+
+Ltac m_step :=
+  match goal with
+  | |- context [get ?H ?x] => rewrite (get_ok H x) by len_side
+  | |- context [wr ?H ?x ?f] => rewrite (wr_ok H x f) by len_side
+  end.
+
+Ltac im_simpl :=
+  cbv beta iota zeta;
+  cbn [IMapBase.bind deref lift optr st_code nth enc n_st n_prev n_next n_ref n_key n_val
+       set_st set_prev set_next set_ref set_key set_val nstate_eqb retarget fst snd negb andb orb Z.eqb Pos.eqb];
+  rewrite ?ptr_eqb0; cbn [negb andb orb].
+
+(* reads of an updated heap *)
+Ltac nd_norm :=
+  repeat match goal with
+  | |- context [nd (upd ?H ?z ?f) ?y] =>
+      first [ rewrite (nd_upd_same H z f) by len_side
+            | rewrite (nd_upd_other H z f y) by first [assumption | congruence | lia]
+            | let E := fresh "E" in destruct (Nat.eq_dec y z) as [E|E]; [subst|] ]
+  end.
+
+(* a pointer read from a field: nil or in range *)
+Ltac ptr_cases :=
+  match goal with
+  | |- context [fld_load (optr ?o) _] => destruct o eqn:?
+  | |- context [fld_store (optr ?o) _ _] => destruct o eqn:?
+  end.
+
+(* facts recorded by earlier case splits *)
+Ltac known_rw :=
+  repeat match goal with
+  | E : ?t = Some _ |- context [?t] => rewrite E
+  | E : ?t = None |- context [?t] => rewrite E
+  | E : ?t = StLast |- context [?t] => rewrite E
+  | E : ?t = StOk |- context [?t] => rewrite E
+  | E : ?t = StDeleted |- context [?t] => rewrite E
+  | E : ?t = true |- context [?t] => rewrite E
+  | E : ?t = false |- context [?t] => rewrite E
+  end.
+
+Ltac im_run :=
+  repeat first [ im_step | m_step | progress im_simpl | progress nd_norm | progress known_rw ].
+
+(* the end of a run: the same heap.  First syntactically (up to fusing adjacent
+   writes to one node), else node by node: stores to different fields or different
+   nodes commute, so the order in which the Go function performs them is
+   immaterial *)
+Lemma mheap_ext (a b : mheap) : length a = length b ->
+  (forall y, (y < length a)%nat -> nd a y = nd b y) -> a = b.
+Proof. intros L H. apply (nth_ext a b zero_node zero_node L). exact H. Qed.
+
+Ltac heap_ext :=
+  apply mheap_ext; [rewrite ?length_upd; reflexivity|];
+  let y := fresh "y" in let Hy := fresh "Hy" in
+  intros y Hy; rewrite ?length_upd in Hy; nd_norm;
+  repeat match goal with |- context [nd ?h ?z] => destruct (nd h z) end; reflexivity.
+
+Ltac im_done :=
+  unfold ret;
+  first [ reflexivity
+        | rewrite ?upd_upd; reflexivity
+        | f_equal; f_equal; first [reflexivity | f_equal; heap_ext | heap_ext] ].
+
+(** * Counter ranges along the walk of [Map.next]
+
+    [rng lo hi mh]: every counter is in [lo, hi].  [rng2 lo hi p mh]: the node
+    [p] the walk stands on has been incremented (it is in [lo+1, hi+1]), the
+    others are in [lo, hi].  One iteration decrements [p] and increments its
+    successor: [rng2] is an invariant, so a whole walk moves every counter by
+    at most one. *)
+
+Definition rng (lo hi : Z) (mh : mheap) : Prop :=
+  forall y, (y < length mh)%nat -> lo <= n_ref (nd mh y) <= hi.
+Definition rng2 (lo hi : Z) (p : nat) (mh : mheap) : Prop :=
+  forall y, (y < length mh)%nat ->
+    (y = p -> lo + 1 <= n_ref (nd mh y) <= hi + 1) /\ (y <> p -> lo <= n_ref (nd mh y) <= hi).
+
+Lemma rng_refs_in B mh : rng (- B) B mh <-> refs_in B mh.
+Proof. unfold rng, refs_in. split; intros H y Hy; specialize (H y Hy); lia. Qed.
+
+Lemma rng_rng2 lo hi p mh : rng (lo + 1) hi mh -> rng2 lo hi p mh.
+Proof. intros H y Hy. specialize (H y Hy). split; intros _; lia. Qed.
+
+Lemma rng2_rng lo hi p mh : rng2 lo hi p mh -> rng lo (hi + 1) mh.
+Proof.
+  intros H y Hy. destruct (H y Hy) as [A B]. destruct (Nat.eq_dec y p) as [E|E]; [specialize (A E)|specialize (B E)]; lia.
+Qed.
+
+Lemma rng_same lo hi a b : same_refs a b -> rng lo hi a -> rng lo hi b.
+Proof. intros [L R] H y Hy. rewrite R. apply H. lia. Qed.
+
+Lemma rng2_dec lo hi p mh : rng2 lo hi p mh -> (p < length mh)%nat ->
+  rng lo hi (upd mh p (set_ref (n_ref (nd mh p) - 1))).
+Proof.
+  intros H Hp y Hy. rewrite length_upd in Hy. destruct (Nat.eq_dec y p) as [->|E].
+  - rewrite nd_upd_same by exact Hp. cbn [n_ref set_ref]. destruct (H p Hp) as [A _]. specialize (A eq_refl). lia.
+  - rewrite nd_upd_other by exact E. destruct (H y Hy) as [_ B]. apply B. exact E.
+Qed.
+
+Lemma rng_inc lo hi p mh : rng lo hi mh -> (p < length mh)%nat ->
+  rng2 lo hi p (upd mh p (set_ref (n_ref (nd mh p) + 1))).
+Proof.
+  intros H Hp y Hy. rewrite length_upd in Hy. split; intros E.
+  - subst y. rewrite nd_upd_same by exact Hp. cbn [n_ref set_ref]. specialize (H p Hp). lia.
+  - rewrite nd_upd_other by exact E. apply H. exact Hy.
+Qed.
+
+Lemma rng2_at lo hi p mh : rng2 lo hi p mh -> (p < length mh)%nat -> lo + 1 <= n_ref (nd mh p) <= hi + 1.
+Proof. intros H Hp. destruct (H p Hp) as [A _]. apply A. reflexivity. Qed.
+
+Lemma closed_set_ref mh x v : closed mh -> closed (upd mh x (set_ref v)).
+Proof. intros C. apply closed_upd; [exact C|]. intros Hx. exact (C x Hx). Qed.
+
+(* the walking state: heap, head, pool *)
+Definition lt_all (len : nat) (l : list nat) : Prop := Forall (fun x => (x < len)%nat) l.
+Definition cwf (c : core) : Prop :=
+  let '(mh, hd, pl) := c in closed mh /\ (hd < length mh)%nat /\ lt_all (length mh) pl.
+
+Lemma cwf_intro mh hd pl : closed mh -> (hd < length mh)%nat -> lt_all (length mh) pl -> cwf (mh, hd, pl).
+Proof. intros A B C. exact (conj A (conj B C)). Qed.
+
+Lemma retarget_lt len hd o : (hd < len)%nat -> inb len o -> (retarget hd o < len)%nat.
+Proof. destruct o; cbn; auto. Qed.
+
+Lemma i_next_pres : forall f mh hd pl p lo hi c' p',
+  cwf (mh, hd, pl) -> (p < length mh)%nat -> rng2 lo hi p mh ->
+  i_next f (mh, hd, pl) p = IMapBase.Ok (c', p') ->
+  cwf c' /\ length (fst (fst c')) = length mh /\ (p' < length mh)%nat /\ rng2 lo hi p' (fst (fst c')).
+Proof.
+  induction f as [|f IH]; intros mh hd pl p lo hi c' p' (C & Hhd & Hpl) Hp R; [discriminate|].
+  cbn [i_next]. rewrite get_ok by exact Hp. cbn [IMapBase.bind].
+  pose proof (C p Hp) as [_ Cn].
+  destruct (n_st (nd mh p)) eqn:Es.
+  { intros [= <- <-]. cbn [fst]. split; [apply cwf_intro; assumption|]. split; [reflexivity|]. split; assumption. }
+  all: set (h1 := upd mh p (set_ref (n_ref (nd mh p) - 1))).
+  all: assert (C1 : closed h1) by (apply closed_set_ref; exact C).
+  all: assert (L1 : length h1 = length mh) by apply length_upd.
+  all: assert (R1 : rng lo hi h1) by (apply rng2_dec; assumption).
+  all: cbn [nstate_eqb andb].
+  (* StOk: plain step *)
+  1: { destruct (n_next (nd mh p)) as [q|] eqn:Eq; cbn [deref IMapBase.bind inb] in *; [|discriminate].
+       rewrite get_ok by (rewrite L1; exact Cn). cbn [IMapBase.bind fst].
+       set (h3 := upd h1 q (set_ref (n_ref (nd h1 q) + 1))).
+       assert (C3 : closed h3) by (apply closed_set_ref; exact C1).
+       assert (L3 : length h3 = length mh) by (unfold h3; rewrite length_upd; exact L1).
+       assert (R3 : rng2 lo hi q h3) by (apply rng_inc; [exact R1|rewrite L1; exact Cn]).
+       rewrite get_ok by (rewrite L3; exact Cn). cbn [IMapBase.bind].
+       destruct (nstate_eqb (n_st (nd h3 q)) StDeleted).
+       - intros E. eapply IH in E; [|apply cwf_intro; rewrite ?L3; assumption|rewrite L3; exact Cn|exact R3].
+         rewrite L3 in E. exact E.
+       - intros [= <- <-]. cbn [fst]. split; [apply cwf_intro; rewrite ?L3; assumption|]. split; [exact L3|]. split; assumption. }
+  (* StDeleted *)
+  destruct (n_ref (nd mh p) - 1 <=? 0).
+  - destruct (n_delete h1 p) as [[h2 nh]| |] eqn:Ed; cbn [IMapBase.bind]; try discriminate.
+    destruct (n_delete_pres h1 p h2 nh C1 ltac:(rewrite L1; exact Hp) Ed) as [[C2 S2] Inh].
+    pose proof (proj1 S2) as L2. rewrite L1 in L2, Inh.
+    destruct (n_next (nd mh p)) as [q|] eqn:Eq; cbn [deref IMapBase.bind inb] in *; [|discriminate].
+    rewrite get_ok by (rewrite L2; exact Cn). cbn [IMapBase.bind fst].
+    set (h3 := upd h2 q (set_ref (n_ref (nd h2 q) + 1))).
+    assert (C3 : closed h3) by (apply closed_set_ref; exact C2).
+    assert (L3 : length h3 = length mh) by (unfold h3; rewrite length_upd; exact L2).
+    assert (R3 : rng2 lo hi q h3) by (apply rng_inc; [eapply rng_same; [exact S2|exact R1]|rewrite L2; exact Cn]).
+    assert (Hhd' : (retarget hd nh < length mh)%nat) by (apply retarget_lt; assumption).
+    assert (Hpl' : lt_all (length mh) (p :: pl)) by (constructor; assumption).
+    rewrite get_ok by (rewrite L3; exact Cn). cbn [IMapBase.bind].
+    destruct (nstate_eqb (n_st (nd h3 q)) StDeleted).
+    + intros E. eapply IH in E; [|apply cwf_intro; rewrite ?L3; assumption|rewrite L3; exact Cn|exact R3].
+      rewrite L3 in E. exact E.
+    + intros [= <- <-]. cbn [fst]. split; [apply cwf_intro; rewrite ?L3; assumption|]. split; [exact L3|]. split; assumption.
+  - destruct (n_next (nd mh p)) as [q|] eqn:Eq; cbn [deref IMapBase.bind inb] in *; [|discriminate].
+    rewrite get_ok by (rewrite L1; exact Cn). cbn [IMapBase.bind fst].
+    set (h3 := upd h1 q (set_ref (n_ref (nd h1 q) + 1))).
+    assert (C3 : closed h3) by (apply closed_set_ref; exact C1).
+    assert (L3 : length h3 = length mh) by (unfold h3; rewrite length_upd; exact L1).
+    assert (R3 : rng2 lo hi q h3) by (apply rng_inc; [exact R1|rewrite L1; exact Cn]).
+    rewrite get_ok by (rewrite L3; exact Cn). cbn [IMapBase.bind].
+    destruct (nstate_eqb (n_st (nd h3 q)) StDeleted).
+    + intros E. eapply IH in E; [|apply cwf_intro; rewrite ?L3; assumption|rewrite L3; exact Cn|exact R3].
+      rewrite L3 in E. exact E.
+    + intros [= <- <-]. cbn [fst]. split; [apply cwf_intro; rewrite ?L3; assumption|]. split; [exact L3|]. split; assumption.
+Qed.
+
+(* the same without case splits on ids *)
+Ltac nd_same := rewrite ?nd_upd_same by len_side.
+Ltac im_run0 := repeat first [ im_step | m_step | progress im_simpl | progress known_rw | progress nd_same ].
+
+Lemma bind_eq {A B} (m : M A) (k : A -> M B) h o : m h = o ->
+  bind m k h = match o with Ok (a, h') => k a h' | GoPanic => GoPanic | NoFuel => NoFuel end.
+Proof. intros <-. reflexivity. Qed.
+
+(* a call of a generated function whose behaviour is the equation E : callee args h = o *)
+Ltac call_with E :=
+  match type of E with
+  | ?m ?h = ?o => match goal with |- context [bind m ?k h] => rewrite (bind_eq m k h o E) end
+  end.
